@@ -17,6 +17,11 @@ CLAIMED = {
          "Generated-input search against a model of the expected header fields of every section. Setters, shapes and strings are sampled; nothing is enumerated exhaustively.",
          "*Preformatted setters and header names are out of scope by the property's statement. Values that consist of printable ASCII and contain encoded-word syntax are a recorded known finding (ew-lookalike-verbatim) and are excluded by signature, counted in the evidence.",
          "DESIGN.md section 3, C02"),
+ "C03": ("fault_enumeration",
+         "rapid-generated histories: batches of generated messages x injected render faults (producer failing before/inside/after its content, deleted attachment file) x transport faults (drop after k DATA bytes) x reply scripts; oracle: commit log of the reference server vs. the harness' own reference rendering, IsDelivered/HasSendError vs. the 2yz end-of-data replies actually sent",
+         "Fault injection at generated positions (producer x position class, DATA byte offset classes, reply position x outcome) over generated batches; sampled by rapid, not exhaustive.",
+         "The reference rendering is taken with Msg.WriteTo before the send (C11 checks that renders are repeatable); 8bit parts carry CRLF line breaks only; in-memory transport; watchdog time-outs are inconclusive.",
+         "DESIGN.md section 3, C03"),
  "C04": ("fault_enumeration",
          "reply-script fault injection against a strict reference SMTP server (own RFC 5321 parser + transaction automaton): exhaustive <= 1-fault (thorough: also 2-fault) scripts at every step id of the fault-free session per capability subset, plus rapid-generated multi-fault scripts/configurations; oracle: automaton accepts the session, parameter forms, reply-tag attribution",
          "Every step id of the recorded fault-free dialogue is replaced by each of {4yz, 5yz, drop} for every capability subset (64 in thorough, 8 per seed in quick) x 2 client configurations: complete for <= 1 fault on those configurations; multi-fault scripts and other configurations are sampled by rapid.",
